@@ -82,18 +82,110 @@ func (p *Program) immutableGlobal(g *ssa.Global) bool {
 							res = false
 						}
 					case *ssa.Store:
-						if x.Addr != ssa.Value(g) || !inInit {
+						if x.Val == ssa.Value(g) && x.Addr != ssa.Value(g) {
+							// the address is kept somewhere (a struct field): see below
+							if !p.typeNeverWrittenThrough(g) {
+								res = false
+							}
+						} else if x.Addr != ssa.Value(g) || !inInit {
 							res = false
 						}
 					case *ssa.DebugRef:
 					default:
-						res = false
+						// the address itself is used as a value (kept in a struct field, handed to a function): still constant
+						// if nothing in the module ever writes through a pointer to this type
+						if !p.typeNeverWrittenThrough(g) {
+							res = false
+						}
 					}
 				}
 			}
 		}
 	}
 	immutableGlobalCache[g] = res
+	return res
+}
+
+var neverWrittenCache = map[string]bool{}
+
+// typeNeverWrittenThrough: for a package-level ARRAY variable g of type T: no instruction of the module stores through
+// an address derived from a value of type *T (other than init through g itself), re-slices such a pointer, converts it,
+// or hands it to a function outside the module. Go's type safety then makes every *T alias of g read-only.
+func (p *Program) typeNeverWrittenThrough(g *ssa.Global) bool {
+	T := g.Type().(*types.Pointer).Elem()
+	if _, isArr := T.Underlying().(*types.Array); !isArr {
+		return false
+	}
+	key := g.Pkg.Pkg.Path() + "." + g.Name()
+	if v, ok := neverWrittenCache[key]; ok {
+		return v
+	}
+	isPT := func(t types.Type) bool {
+		pt, ok := t.(*types.Pointer)
+		return ok && types.Identical(pt.Elem(), T)
+	}
+	res := true
+	for fn := range p.All {
+		if !InModule(fn) || !res {
+			continue
+		}
+		for _, b := range fn.Blocks {
+			for _, in := range b.Instrs {
+				switch x := in.(type) {
+				case *ssa.Store:
+					base := x.Addr
+					for {
+						if ia, ok := base.(*ssa.IndexAddr); ok {
+							base = ia.X
+							continue
+						}
+						break
+					}
+					_, baseIsGlobal := base.(*ssa.Global)
+					if base != x.Addr && isPT(base.Type()) && !(fn.Name() == "init" && baseIsGlobal) {
+						// (a store in an init function directly into a package-level array — g or another table of the same
+						// type — is initialisation, not a write through an alias)
+						res = false
+					}
+					if isPT(x.Addr.Type()) && false {
+						res = false
+					}
+					// a whole-array store *p = v
+					if pt, ok := x.Addr.Type().(*types.Pointer); ok && types.Identical(pt.Elem(), T) {
+						if _, addrIsGlobal := x.Addr.(*ssa.Global); !(fn.Name() == "init" && addrIsGlobal) {
+							res = false
+						}
+					}
+				case *ssa.Slice:
+					if isPT(x.X.Type()) {
+						res = false
+					}
+				case *ssa.ChangeType:
+					if isPT(x.X.Type()) {
+						res = false
+					}
+				case *ssa.Convert:
+					if isPT(x.X.Type()) {
+						res = false
+					}
+				case *ssa.MakeInterface:
+					if isPT(x.X.Type()) {
+						res = false
+					}
+				case ssa.CallInstruction:
+					cc := x.Common()
+					for _, a := range cc.Args {
+						if isPT(a.Type()) {
+							if cal := cc.StaticCallee(); cal == nil || !InModule(cal) {
+								res = false
+							}
+						}
+					}
+				}
+			}
+		}
+	}
+	neverWrittenCache[key] = res
 	return res
 }
 
@@ -110,7 +202,18 @@ func (ex *Exec) constTableGlobal(g *ssa.Global) Val {
 	}
 	switch u := elemT.Underlying().(type) {
 	case *types.Array:
-		if _, _, ok := intTypeInfo(u.Elem()); !ok || u.Len() > 4096 {
+		isScalar := func(t types.Type) bool { _, isB := t.Underlying().(*types.Basic); return isB }
+		elemStruct, _ := u.Elem().Underlying().(*types.Struct)
+		if elemStruct != nil {
+			for i := 0; i < elemStruct.NumFields(); i++ {
+				if !isScalar(elemStruct.Field(i).Type()) {
+					return nil
+				}
+			}
+		} else if !isScalar(u.Elem()) {
+			return nil
+		}
+		if u.Len() > 4096 {
 			return nil
 		}
 		es := make([]Val, u.Len())
@@ -124,17 +227,41 @@ func (ex *Exec) constTableGlobal(g *ssa.Global) Val {
 					if x.X != ssa.Value(g) {
 						continue
 					}
+					k, okK := constInt(x.Index)
+					if !okK || k < 0 || k >= u.Len() {
+						return nil
+					}
 					for _, r := range *x.Referrers() {
-						st, ok := r.(*ssa.Store)
-						if !ok {
-							continue
-						}
-						k, okK := constInt(x.Index)
-						cv, okC := st.Val.(*ssa.Const)
-						if !okK || !okC || k < 0 || k >= u.Len() {
+						switch y := r.(type) {
+						case *ssa.Store:
+							cv, okC := y.Val.(*ssa.Const)
+							if !okC || elemStruct != nil || y.Addr != ssa.Value(x) {
+								return nil
+							}
+							es[k] = ex.constVal(cv)
+						case *ssa.FieldAddr:
+							sv, _ := es[k].(*StructV)
+							if sv == nil {
+								return nil
+							}
+							for _, r2 := range *y.Referrers() {
+								st2, okS := r2.(*ssa.Store)
+								if !okS {
+									if _, isD := r2.(*ssa.DebugRef); isD {
+										continue
+									}
+									return nil
+								}
+								cv, okC := st2.Val.(*ssa.Const)
+								if !okC || st2.Addr != ssa.Value(y) {
+									return nil
+								}
+								sv.Fields[y.Field] = ex.constVal(cv)
+							}
+						case *ssa.DebugRef:
+						default:
 							return nil
 						}
-						es[k] = ex.constVal(cv)
 					}
 				case *ssa.Store:
 					if x.Addr == ssa.Value(g) {
@@ -144,6 +271,44 @@ func (ex *Exec) constTableGlobal(g *ssa.Global) Val {
 			}
 		}
 		return &ArrayV{Elem: u.Elem(), Segs: []Seg{{Elems: es}}}
+	case *types.Struct:
+		// a struct of scalars (integers, floats, booleans, strings) built from constants: zero value plus the constant
+		// field stores of init
+		sv, _ := ex.zeroOf(elemT).(*StructV)
+		if sv == nil {
+			return nil
+		}
+		for i := 0; i < u.NumFields(); i++ {
+			if _, isB := u.Field(i).Type().Underlying().(*types.Basic); !isB {
+				return nil
+			}
+		}
+		for _, b := range initFn.Blocks {
+			for _, in := range b.Instrs {
+				switch x := in.(type) {
+				case *ssa.FieldAddr:
+					if x.X != ssa.Value(g) {
+						continue
+					}
+					for _, r := range *x.Referrers() {
+						st, ok := r.(*ssa.Store)
+						if !ok {
+							continue
+						}
+						cv, okC := st.Val.(*ssa.Const)
+						if !okC || x.Field < 0 || x.Field >= len(sv.Fields) {
+							return nil
+						}
+						sv.Fields[x.Field] = ex.constVal(cv)
+					}
+				case *ssa.Store:
+					if x.Addr == ssa.Value(g) {
+						return nil // whole-struct store from a computed value: not modelled
+					}
+				}
+			}
+		}
+		return sv
 	case *types.Basic:
 		var val Val
 		n := 0
@@ -167,4 +332,217 @@ func (ex *Exec) constTableGlobal(g *ssa.Global) Val {
 		}
 	}
 	return nil
+}
+
+// readOnlyUse: the value (a slice, an element address, a parameter receiving the slice) is only read — indexed and
+// loaded, ranged over, measured, re-sliced, or handed to a module function that only reads the corresponding parameter.
+func readOnlyUse(v ssa.Value, depth int, seen map[ssa.Value]bool) bool {
+	if depth > 3 {
+		return false
+	}
+	if seen[v] {
+		return true
+	}
+	seen[v] = true
+	refs := v.Referrers()
+	if refs == nil {
+		return true
+	}
+	for _, u := range *refs {
+		switch x := u.(type) {
+		case *ssa.DebugRef:
+		case *ssa.UnOp:
+			if x.Op != token.MUL {
+				return false
+			}
+			// a loaded element: scalars and structs of scalars only (checked by the caller), so nothing to follow
+		case *ssa.IndexAddr:
+			if x.X != v || !readOnlyUse(x, depth, seen) {
+				return false
+			}
+		case *ssa.FieldAddr:
+			if x.X != v || !readOnlyUse(x, depth, seen) {
+				return false
+			}
+		case *ssa.Index, *ssa.Field, *ssa.Lookup:
+		case *ssa.Range:
+		case *ssa.Slice:
+			if x.X != v || !readOnlyUse(x, depth, seen) {
+				return false
+			}
+		case *ssa.Phi:
+			if !readOnlyUse(x, depth, seen) {
+				return false
+			}
+		case *ssa.BinOp:
+			// comparison with nil
+		case *ssa.Call:
+			cc := x.Common()
+			if bi, ok := cc.Value.(*ssa.Builtin); ok {
+				if bi.Name() != "len" && bi.Name() != "cap" {
+					return false
+				}
+				continue
+			}
+			cal := cc.StaticCallee()
+			if cal == nil || cal.Blocks == nil || !InModule(cal) || cc.IsInvoke() {
+				return false
+			}
+			for i, a := range cc.Args {
+				if a == v {
+					if i >= len(cal.Params) || !readOnlyUse(cal.Params[i], depth+1, seen) {
+						return false
+					}
+				}
+			}
+		default:
+			return false
+		}
+	}
+	return true
+}
+
+var sliceLitCache = map[*ssa.Global]int{} // 1 yes, 2 no
+var sliceLitMu sync.Mutex
+
+// sliceLiteralGlobal: a package-level slice variable that init sets once to a literal of scalars / structs of scalars
+// built from constants, and that the module afterwards only reads (a lookup table spelled as a slice).
+func (ex *Exec) sliceLiteralGlobal(st *State, g *ssa.Global) (Val, bool) {
+	if g.Pkg == nil || !strings.HasPrefix(g.Pkg.Pkg.Path(), modPath) {
+		return nil, false
+	}
+	slT, ok := g.Type().(*types.Pointer).Elem().Underlying().(*types.Slice)
+	if !ok {
+		return nil, false
+	}
+	scalar := func(t types.Type) bool { _, isB := t.Underlying().(*types.Basic); return isB }
+	elemStruct, _ := slT.Elem().Underlying().(*types.Struct)
+	if elemStruct != nil {
+		for i := 0; i < elemStruct.NumFields(); i++ {
+			if !scalar(elemStruct.Field(i).Type()) {
+				return nil, false
+			}
+		}
+	} else if !scalar(slT.Elem()) {
+		return nil, false
+	}
+	initFn := g.Pkg.Func("init")
+	if initFn == nil {
+		return nil, false
+	}
+	sliceLitMu.Lock()
+	verdict := sliceLitCache[g]
+	sliceLitMu.Unlock()
+	if verdict == 2 {
+		return nil, false
+	}
+	// the single store in init: a slice of a fresh array
+	var theStore *ssa.Store
+	for fn := range ex.P.All {
+		if !InModule(fn) {
+			continue
+		}
+		for _, b := range fn.Blocks {
+			for _, in := range b.Instrs {
+				for _, op := range in.Operands(nil) {
+					if *op != ssa.Value(g) {
+						continue
+					}
+					switch x := in.(type) {
+					case *ssa.Store:
+						if x.Addr != ssa.Value(g) || fn != initFn || theStore != nil {
+							verdict = 2
+						} else {
+							theStore = x
+						}
+					case *ssa.UnOp:
+						if x.Op != token.MUL {
+							verdict = 2
+						} else if verdict != 1 && !readOnlyUse(x, 0, map[ssa.Value]bool{}) {
+							verdict = 2
+						}
+					case *ssa.DebugRef:
+					default:
+						verdict = 2
+					}
+				}
+			}
+		}
+	}
+	fail := func() (Val, bool) {
+		sliceLitMu.Lock()
+		sliceLitCache[g] = 2
+		sliceLitMu.Unlock()
+		return nil, false
+	}
+	if verdict == 2 || theStore == nil {
+		return fail()
+	}
+	sl, ok := theStore.Val.(*ssa.Slice)
+	if !ok || sl.Low != nil || sl.High != nil {
+		return fail()
+	}
+	al, ok := sl.X.(*ssa.Alloc)
+	if !ok {
+		return fail()
+	}
+	arrT, ok := al.Type().(*types.Pointer).Elem().Underlying().(*types.Array)
+	if !ok || arrT.Len() > 4096 {
+		return fail()
+	}
+	es := make([]Val, arrT.Len())
+	for i := range es {
+		es[i] = ex.zeroOf(arrT.Elem())
+	}
+	for _, r := range *al.Referrers() {
+		switch x := r.(type) {
+		case *ssa.Slice, *ssa.DebugRef:
+		case *ssa.IndexAddr:
+			k, okK := constInt(x.Index)
+			if !okK || k < 0 || k >= arrT.Len() {
+				return fail()
+			}
+			for _, r2 := range *x.Referrers() {
+				switch y := r2.(type) {
+				case *ssa.Store:
+					cv, okC := y.Val.(*ssa.Const)
+					if !okC || y.Addr != ssa.Value(x) || elemStruct != nil {
+						return fail()
+					}
+					es[k] = ex.constVal(cv)
+				case *ssa.FieldAddr:
+					sv, _ := es[k].(*StructV)
+					if sv == nil {
+						return fail()
+					}
+					for _, r3 := range *y.Referrers() {
+						st3, okS := r3.(*ssa.Store)
+						if !okS {
+							if _, isD := r3.(*ssa.DebugRef); isD {
+								continue
+							}
+							return fail()
+						}
+						cv, okC := st3.Val.(*ssa.Const)
+						if !okC || st3.Addr != ssa.Value(y) {
+							return fail()
+						}
+						sv.Fields[y.Field] = ex.constVal(cv)
+					}
+				case *ssa.DebugRef:
+				default:
+					return fail()
+				}
+			}
+		default:
+			return fail()
+		}
+	}
+	sliceLitMu.Lock()
+	sliceLitCache[g] = 1
+	sliceLitMu.Unlock()
+	n := mkConst(arrT.Len(), 64, true)
+	id := ex.newObj(st, &ArrayV{Elem: arrT.Elem(), Segs: []Seg{{Elems: es}}}, nil)
+	ex.constObj[id] = true
+	return &SliceV{Obj: id, Off: mkConst(0, 64, true), Len: n, Cap: n}, true
 }
